@@ -8,6 +8,7 @@ import (
 	"os"
 	"regexp"
 	"strings"
+	"syscall"
 	"time"
 
 	"verif/core"
@@ -465,7 +466,7 @@ func checkC09(c *core.Ctx) {
 
 	// faults on the standard streams themselves: standard output that refuses every byte (/dev/full) or is
 	// closed, standard input that is closed. A command whose result could not be delivered must not claim success.
-	redirs := []string{">/dev/full", ">&-", "<&-", "<&- >&-"}
+	redirs := []string{">/dev/full", ">&-", "<&-", "<&- >&-", ">LIMITED"} // LIMITED: a regular file that may grow to 512 bytes only
 	stdCmds := append(append([]struct {
 		args  []string
 		stdin string
@@ -490,8 +491,21 @@ func checkC09(c *core.Ctx) {
 		}
 		// what the command prints on an ordinary run
 		ref := c.Crd.Run(runner.Opt{Stdin: payload}, fc.args...)
-		res := c.Crd.Run(runner.Opt{Stdin: stdin, Redirect: rd}, args...)
+		ro := runner.Opt{Stdin: stdin, Redirect: rd}
+		limited := ""
+		if rd == ">LIMITED" {
+			limited = c.Scratch.Path("limited.out")
+			ro.Redirect, ro.FileBlocks = ">"+limited, 1
+		}
+		res := c.Crd.Run(ro, args...)
+		if res.Signal == int(syscall.SIGXFSZ) {
+			return // the default action of the limit itself
+		}
 		if !judgeOutcome(c, "stdfaults", i, name, res, map[string]any{"argv": runner.ShellQuote(res.Argv), "redirect": rd}) {
+			return
+		}
+		if limited != "" && ref.OK() && res.Exit == 0 && !bytes.Equal(readFileOrNil(limited), ref.Stdout) {
+			c.Violate("stdfaults", i, "silent-write-failure:"+strings.Join(fc.args[:min(3, len(fc.args))], " ")+":limited", fmt.Sprintf("`crd %s` reports success although only %d of its %d bytes of output fit into the output file (file size limit)", strings.Join(fc.args, " "), len(readFileOrNil(limited)), len(ref.Stdout)), map[string]any{"run": obs(res)})
 			return
 		}
 		// (a closed standard output is not such a fault: the Go runtime re-opens closed standard descriptors on
